@@ -19,9 +19,17 @@ def run_property(prop, tier, seed):
     model = core.Model()
     rep = core.Report(prop, tier, model)
     mod.check(model, rep, tier)
+    missed = []
+    if tier == 'thorough':
+      from sa import thorough
+      missed = thorough.extend(prop, rep)
     code = rep.finish(seed)
-    if tier == 'thorough' and hasattr(mod, 'thorough') and code == 0:
-      code = mod.thorough(model, rep) or 0
+    if missed and code == 0:
+      # a clean verdict from a checker that misses its own positive controls is
+      # not a verdict
+      print('ANALYSIS-ERROR property=%s positive controls not reported: %s' %
+            (prop, ', '.join(missed)))
+      return 2
     return code
   except core.AnalysisError as e:
     print('ANALYSIS-ERROR property=%s %s' % (prop, e))
